@@ -98,6 +98,8 @@ var c06Attacks = []C06Plan{
 	{Attack: "forged-signer", KeyRole: "att1"}, {Attack: "forged-signer", KeyRole: "mfg"}, {Attack: "forged-signer", KeyRole: "owner3"}, {Attack: "forged-signer", KeyRole: "prev"},
 	{Attack: "forged-overwrite", KeyRole: "att1"},
 	{Attack: "control-builder"},
+	// forged entries presented while a genuine registration of the same voucher is live
+	{Attack: "broken-chain-overwrite"}, {Attack: "entry-swap"}, {Attack: "entry-swap-overwrite"},
 	{Attack: "zero-entries"}, {Attack: "broken-chain"}, {Attack: "foreign-nonce"}, {Attack: "hash-mismatch"}, {Attack: "replay"},
 }
 
@@ -363,7 +365,7 @@ func c06Run(env *Env, pl *C06Plan, collect *[]byte) {
 
 	// forged requests
 	mustReject := true
-	if pl.Attack == "forged-overwrite" || pl.Attack == "replay" {
+	if pl.Attack == "forged-overwrite" || pl.Attack == "replay" || strings.HasSuffix(pl.Attack, "-overwrite") {
 		if _, err := s.TO0(ctx, "owner1", "rv", guid, 3600); err != nil {
 			setupFail("genuine-registration", err)
 			return
@@ -390,18 +392,31 @@ func c06Run(env *Env, pl *C06Plan, collect *[]byte) {
 		body, err = BuildOwnerSign(ov, pl.TTL, nonce, evil, owner1, cfg.PSS(), nil)
 	case "zero-entries":
 		body, err = BuildOwnerSign(chain[0], pl.TTL, nonce, evil, s.Keys.Get("mfg", cfg.Fam()), cfg.PSS(), nil)
-	case "broken-chain":
+	case "broken-chain", "broken-chain-overwrite", "entry-swap", "entry-swap-overwrite":
 		bad := *ov
 		bad.Entries = append([]cose.Sign1Tag[fdo.VoucherEntryPayload, []byte](nil), ov.Entries...)
 		last := bad.Entries[len(bad.Entries)-1]
 		last.Protected = nil
 		att := s.Keys.Get("att1", cfg.Fam())
+		signer := owner1
+		if strings.HasPrefix(pl.Attack, "entry-swap") {
+			// the forged entry also names the attacker's key, who then signs to1d
+			apk, perr := PublicKeyFor(cfg, att)
+			if perr != nil {
+				setupFail("attacker-key", perr)
+				return
+			}
+			pv := *last.Payload
+			pv.Val.PublicKey = *apk
+			last.Payload = &pv
+			signer = att
+		}
 		if err := last.Sign(att.Key, nil, nil, SignOpts(att, cfg.PSS())); err != nil {
 			setupFail("resign-entry", err)
 			return
 		}
 		bad.Entries[len(bad.Entries)-1] = last
-		body, err = BuildOwnerSign(&bad, pl.TTL, nonce, evil, owner1, cfg.PSS(), nil)
+		body, err = BuildOwnerSign(&bad, pl.TTL, nonce, evil, signer, cfg.PSS(), nil)
 	case "foreign-nonce":
 		other := &RawClient{Net: s.Net, From: "adversary2", To: "rv"}
 		n2, herr := hello(other)
